@@ -254,7 +254,7 @@ def run(R):
     cases = []
     for c in corpus():
         cases.append({"W": c["W"], "n": len(c["W"]), "zero": True, "tag": "corpus"})
-    cnt = 12000 if R.thorough else 400
+    cnt = 12000 if R.thorough else 900
     nmax = 12 if R.thorough else 7
     for t in range(cnt):
         n = R.rng.randint(1, nmax)
